@@ -75,6 +75,8 @@ struct munge_cred {
     int                 iv_len;         /* length of iv data                 */
     unsigned char       iv[MAX_IV];     /* initialization vector             */
     unsigned char      *outer_zip_ref;  /* ref to zip_t in outer cred memory */
+    int                 is_replay_new;  /* true if this decode added its own *
+                                         *  entry to the replay hash         */
 };
 
 typedef struct munge_cred * munge_cred_t;
